@@ -368,7 +368,9 @@ class SplitExact(TreeContract):
         return [
             ('nalloc+2', h.nalloc == old.nalloc + 2),
             ('midway=round(m)', z3.And(z3.Not(h.sel('_midway#none', s)), h.sel('_midway', s) == ROUND(m))),
-            ('children-fresh', z3.And(h.sel('_left_child', s) == old.nalloc + 1, h.sel('_right_child', s) == old.nalloc + 2)),
+            # the two children are the two freshly allocated nodes, in either order of allocation (the order is not observable)
+            ('children-fresh', z3.Or(z3.And(h.sel('_left_child', s) == old.nalloc + 1, h.sel('_right_child', s) == old.nalloc + 2),
+                                     z3.And(h.sel('_left_child', s) == old.nalloc + 2, h.sel('_right_child', s) == old.nalloc + 1))),
             ('children-are-leaves', z3.And(h.sel('_midway#none', old.nalloc + 1), h.sel('_midway#none', old.nalloc + 2))),
             ('refines', w.refines(old)),
             ('frame', w.unchanged_except(old, s)),
@@ -629,7 +631,7 @@ class GhostSplitExact(SplitExact):
         new_ghost = dict(ghost_wf(w))
         # --- ghost.path, skolemised by hand with instantiation hints (instances of hypotheses) and the pure lemma
         n = cx.fresh('sk_n', Z)
-        Lc, Rc = old.nalloc + 1, old.nalloc + 2
+        Lc, Rc = h.sel('_left_child', s), h.sel('_right_child', s)
         old_wf = dict(w.wf(old))
         hints = [inst(old_ghost['lam.no-boundary-inside-leaf'], n, s), inst(old_ghost['ghost.path'], n),
                  inst(old_ghost['ghost.path'], s), ghost_right_child_lemma(w, old, oldWc, oldV, h, s),
